@@ -94,6 +94,8 @@ def check_mtl(ctx: Ctx):
     T = len(M.losses)
     shared = sorted(P.reach_leaves(M.features))
     tasks = [list(tl) for tl in M.task_leaves]
+    if rng.random() < 0.15:
+        shared = []                  # frozen trunk: heads only
     agg = weights_for(rng, T)
     chunk = rng.choice([None, 1, 2])
     pre = rand_pre(rng, P, P.leaves())
